@@ -144,6 +144,10 @@ def replay(arg):
             rm = _MGR.get_ground_truth_now_frame(tq, tolq, False)
             if (rm is None) != (r is None) or (rm is not None and rm is not r):
                 mism.append(("manager-lookup", "manager lookup differs from get_now_frame", rep))
+            # a lookup that does not ask for interpolation is the plain nearest-frame lookup
+            rmd = _MGR.get_ground_truth_now_frame(tq, tolq)
+            if (rmd is None) != (r is None) or (rmd is not None and rmd is not r):
+                mism.append(("manager-lookup-default", "manager lookup without the interpolation flag differs from get_now_frame", rep))
             rmi = _MGR.get_ground_truth_now_frame(tq, tolq, True)
             if (rmi is None) != (ri is None):
                 mism.append(("manager-interp", "manager interpolating lookup differs from get_interpolated_now_frame", rep))
